@@ -163,7 +163,7 @@ def classify(prop_id, total, fresh_replay=True):
     for key in seen_known:
         lines.append('KNOWN-FINDING: property=%s %s [key=%s, %d case(s) this run]' % (
             prop_id, known[key]['what'], key, counts[key]))
-    rdir = os.path.join(HERE, 'replays', prop_id)
+    rdir = os.path.join(os.environ.get('VERIF_EVIDENCE_DIR') or HERE, 'replays', prop_id)
     n_new = 0
     for key, vs in list(new.items())[:MAX_KEYS_REPORTED]:
         os.makedirs(rdir, exist_ok=True)
@@ -262,8 +262,11 @@ def write_evidence(prop, tier, seed, total, wall, n_new, known_seen, exhaustive=
         'violations': n_new,
     }
     check_evidence_shape(ev)
-    os.makedirs(os.path.join(HERE, 'evidence'), exist_ok=True)
-    path = os.path.join(HERE, 'evidence', prop.PROPERTY + '.json')
+    # VERIF_EVIDENCE_DIR is only set by tools/try_mutant.sh, so that runs against a scratch copy of the
+    # repository do not overwrite the evidence of the checks on /repo
+    edir = os.environ.get('VERIF_EVIDENCE_DIR') or os.path.join(HERE, 'evidence')
+    os.makedirs(edir, exist_ok=True)
+    path = os.path.join(edir, prop.PROPERTY + '.json')
     tmp = path + '.tmp%d' % os.getpid()
     with open(tmp, 'w') as f:
         json.dump(ev, f, indent=1, sort_keys=True)
